@@ -177,7 +177,15 @@ func c11Sessions(c *Ctx) {
 		freeze(baseTime.Add(time.Duration(r.Int64N(1e9))))
 		defer unfreeze()
 		var seen []string
-		h := http.HandlerFunc(func(w http.ResponseWriter, req *http.Request) { seen = append(seen, urlKey(req.URL)) })
+		editURL := i%3 == 1
+		h := http.HandlerFunc(func(w http.ResponseWriter, req *http.Request) {
+			seen = append(seen, urlKey(req.URL))
+			if editURL {
+				// the handler behind the balancer edits the request it was handed (prefixing the path, as a rewrite step does)
+				req.URL.Path = "/v1" + req.URL.Path
+				req.URL.RawQuery = "edited=1"
+			}
+		})
 		sticky := roundrobin.NewStickySession("aff").SetCookieValue(codec.v)
 		t := newC02Target(kind, h, "never", r, sticky)
 		model := map[string]int{}
